@@ -110,8 +110,11 @@ async def request(
                                if k.lower() == 'retry-after'), None)
                 if header:
                     retry_after = _parse_retry_after(header)  # the new style
-                elif e.details and e.details.get("retryAfterSeconds"):
-                    retry_after = math.ceil(float(e.details["retryAfterSeconds"]))  # the old style
+                elif isinstance(e.details, dict) and e.details.get("retryAfterSeconds"):
+                    try:
+                        retry_after = math.ceil(float(e.details["retryAfterSeconds"]))  # old style
+                    except (TypeError, ValueError, OverflowError):  # "soon", NaN, Infinity, [5]…
+                        retry_after = None
                 else:
                     retry_after = None
 
